@@ -34,6 +34,22 @@ func NewRowResolver(db objects.Store, cd *diff.ColDiff, buf *diff.BlockBuffer) *
 	}
 }
 
+// layoutDiffers tells whether a layer's table lays its columns out differently from the
+// base table (columns added, removed, renamed or merely moved). Only when the layouts are
+// the same do equal row bytes mean an unchanged row.
+func layoutDiffers(cd *diff.ColDiff, layer int) bool {
+	idx := cd.OtherIdx[layer]
+	if len(idx) != len(cd.BaseIdx) {
+		return true
+	}
+	for k, v := range cd.BaseIdx {
+		if u, ok := idx[k]; !ok || u != v {
+			return true
+		}
+	}
+	return false
+}
+
 func (r *RowResolver) getRow(m *Merge, layer int) ([]string, error) {
 	rowOff := m.BaseOffset
 	sum := m.Base
@@ -63,7 +79,7 @@ func (r *RowResolver) tryResolve(m *Merge) (err error) {
 	for i, sum := range m.Others {
 		if sum != nil {
 			key := string(sum)
-			if len(r.cd.Added[i]) > 0 || len(r.cd.Removed[i]) > 0 {
+			if layoutDiffers(r.cd, i) {
 				// the same bytes mean something else under another column layout
 				key = fmt.Sprintf("%s/%d", key, i)
 			}
@@ -165,10 +181,10 @@ func (r *RowResolver) tryResolve(m *Merge) (err error) {
 func (r *RowResolver) Resolve(m *Merge) (err error) {
 	nonNils := 0
 	unchanges := 0
-	for _, sum := range m.Others {
+	for i, sum := range m.Others {
 		if sum != nil {
 			nonNils++
-			if bytes.Equal(sum, m.Base) {
+			if bytes.Equal(sum, m.Base) && !layoutDiffers(r.cd, i) {
 				unchanges++
 			}
 		}
